@@ -34,26 +34,74 @@ def build_debug_harness():
     return (exe if rc == 0 else None), out
 
 
-def correspond(c, exe_m, prog, seed, n, tier, extra=None, name=None):
-    rc, out, cases, st = V.run_harness(prog, "c07", seed, n, tier, extra=extra, name=name or prog)
+def run_model_parallel(exe, lines, shards=12):
+    """the extracted model over lines, in parallel shards (program lines are long: all cancellation points of one program)"""
+    import subprocess, threading
+    shards = max(1, min(shards, len(lines)))
+    parts = [lines[i::shards] for i in range(shards)]
+    outs = [None] * shards
+
+    def work(i):
+        p = subprocess.run([exe], input=("\n".join(parts[i]) + "\n").encode(), stdout=subprocess.PIPE, stderr=subprocess.PIPE, timeout=3000)
+        outs[i] = p.stdout.decode("utf-8", "replace").split("\n")[:-1] if p.returncode == 0 else None
+    ths = [threading.Thread(target=work, args=(i,)) for i in range(shards)]
+    [t.start() for t in ths]
+    [t.join() for t in ths]
+    res = [None] * len(lines)
+    for i in range(shards):
+        if outs[i] is None or len(outs[i]) != len(parts[i]):
+            return None
+        res[i::shards] = outs[i]
+    return res
+
+
+def correspond(c, exe_m, prog, seed, n, tier, extra=None, name=None, same_as=None):
+    name = name or prog
+    rc, out, cases, st = V.run_harness(prog, "c07", seed, n, tier, extra=extra, name=name)
     if rc != 0:
         c.broken_correspondence("harness-run", None, V.tail(out, 40))
         return st
-    smism = V.compare_model(c, exe_m, cases, name or prog, spec=True)
-    mism = V.compare_model(c, exe_m, cases, name or prog)
-    sbad = set(l for l, _ in smism)
-    # impl != property statement (prefix of the uncancelled run, then ctx error at poll k, then false forever)
-    for line, verdict in smism[:10]:
-        c.failing_input("cancelled run is not <prefix of the uncancelled run> + ctx.Err() at poll k + (nil,false) forever",
-                        case_of_line(line, verdict), "expected by the property: " + verdict[:600])
-    for line, verdict in mism[:10]:
-        if line not in sbad:
-            c.broken_correspondence(name or prog, case_of_line(line, verdict), "model (Cancel.next) verdict: " + verdict[:600])
     for v in (st.get("impl_violations") or [])[:20]:
         case, what = case_of_viol(v)
         c.failing_input("impl-oracle: " + what, case, v)
     if st.get("aborted"):
         c.notes.append("harness stopped early: " + str(st.get("aborted")))
+    if same_as and open(same_as, "rb").read() == open(cases, "rb").read():
+        c.notes.append("%s: case lines identical to %s (already judged by the model)" % (name, os.path.basename(same_as)))
+        return st
+    lines = [l for l in open(cases).read().split("\n") if l]
+    outs = run_model_parallel(exe_m, ["(both " + l + ")" for l in lines])
+    if outs is None:
+        c.broken_correspondence(name, None, "extracted model failed or produced a wrong number of verdicts")
+        return st
+    nbad = 0
+    for l, o in zip(lines, outs):
+        c.note_case(l)
+        if o == "ok":
+            continue
+        nbad += 1
+        if nbad > 10:
+            continue
+        # the two verdicts: model (Cancel.next) and property statement (direct list computation)
+        mv, sv = (o, o)
+        if o.startswith("(both "):
+            body = o[6:-1]
+            if body.startswith("ok "):
+                mv, sv = "ok", body[3:]
+            elif body.endswith(" ok"):
+                mv, sv = body[:-3], "ok"
+            else:
+                mv, sv = body, body
+        if sv != "ok":
+            # impl != property statement (prefix of the uncancelled run, then ctx error at poll k, then false forever)
+            c.failing_input("cancelled run is not <prefix of the uncancelled run> + ctx.Err() at poll k + (nil,false) forever",
+                            case_of_line(l, sv), "expected by the property: " + sv[:600])
+        else:
+            c.broken_correspondence(name, case_of_line(l, mv), "model (Cancel.next) verdict: " + mv[:600])
+    if lines:
+        step = max(1, len(lines) // 4)
+        for i in range(0, len(lines), step):
+            c.samples.append(dict(stream=name, case=lines[i][:300], verdict=outs[i][:200]))
     return st
 
 
@@ -79,12 +127,14 @@ def run(tier, seed, extra=None):
         else:
             n = 60 if tier == "quick" else 700
             st = correspond(c, exe_m, "c07", seed, n, tier, extra=extra)
+            first_cases = os.path.join(V.BUILD, "cases", "c07.cases")
             exe_d, dlog = build_debug_harness()
             if exe_d is None:
                 c.broken_correspondence("debug-harness-build", None, V.tail(dlog, 40))
-            elif not st.get("aborted"):
+            else:
                 # same programs with fetch counting (slower: the debug trace formats every instruction)
-                std = correspond(c, exe_m, "c07dbg", seed, n if tier == "quick" else 150, tier, extra=extra, name="c07dbg")
+                std = correspond(c, exe_m, "c07dbg", seed, n if tier == "quick" else 150, tier, extra=extra, name="c07dbg",
+                                 same_as=first_cases if tier == "quick" else None)
     rule = ("programs: ~290 fixed (finite, error mid-stream, try/catch, label/break, limit/first/until/while/repeat/recurse/range, "
             "reduce/foreach, paths/updates, user functions, native Go iterators, inputs, 60 infinite forms) + seeded generator x wrapper "
             "compositions; for each program EVERY cancellation poll k = 0..N (N = polls of the finite run, or the cap) and 3 extra Next calls; "
